@@ -326,7 +326,7 @@ def r6(ctx, F, fn):
     for owner, r1, r2s in (("White", 1, (3, 2)), ("Black", 6, (4, 5))):
         for kind in ("Pawn", "Rook"):
             for r2 in r2s:
-                for c in (0, 4, 7):
+                for c in range(8):
                     for ln, lf in contents.items():
                         for rn, rf in contents.items():
                             board = {(r2, c - 1): lf(owner), (r2, c + 1): rf(owner)}
